@@ -13,6 +13,7 @@ wt="$(mktemp -d /var/tmp/confirm-XXXXXX)"; rmdir "$wt"
 git -C /repo worktree add -q --detach "$wt" "$base" || exit 3
 trap 'git -C /repo worktree remove --force "$wt" >/dev/null 2>&1; rm -rf "$wt"' EXIT
 rundemo() {
+  : > "$wt/.demo.log"
   if [ -f "$sd/run_demo.sh" ]; then
     # the script locates the worktree as ../.. of its own directory
     mkdir -p "$wt/SEEDED" && rm -rf "$wt/SEEDED/k" && cp -r "$sd" "$wt/SEEDED/k"
@@ -21,11 +22,29 @@ rundemo() {
     rm -rf "$wt/SEEDED"
     return $rc
   fi
-  cp "$sd"/*_test.go "$wt/lib/go/" 2>/dev/null
-  names=$(grep -h -o "^func Test[A-Za-z0-9_]*" "$sd"/*_test.go | sed 's/func //' | paste -sd'|')
-  (cd "$wt/lib/go" && flock /var/tmp/verif-repo-tests.lock timeout 300 go test -vet=off -count=1 -run "^($names)\$" . ) > "$wt/.demo.log" 2>&1
-  rc=$?
-  for f in "$sd"/*_test.go; do rm -f "$wt/lib/go/$(basename "$f")"; done
+  if [ -f "$sd/demo.sh" ]; then
+    mkdir -p "$wt/SEEDED" && rm -rf "$wt/SEEDED/k" && cp -r "$sd" "$wt/SEEDED/k"
+    (cd "$wt" && flock /var/tmp/verif-repo-tests.lock timeout 900 bash "$wt/SEEDED/k/demo.sh") > "$wt/.demo.log" 2>&1
+    rc=$?
+    rm -rf "$wt/SEEDED"
+    return $rc
+  fi
+  # place every *_test.go by its package clause
+  rc=0; placed=""
+  for f in "$sd"/*_test.go; do
+    [ -f "$f" ] || continue
+    pkg=$(grep -m1 -E "^package " "$f" | awk '{print $2}')
+    case "$pkg" in
+      parser) dir="compiler/parser"; mod="$wt";;
+      compiler|compiler_test) dir="compiler"; mod="$wt";;
+      golang) dir="compiler/generator/golang"; mod="$wt";;
+      *) dir="lib/go"; mod="$wt/lib/go";;
+    esac
+    cp "$f" "$wt/$dir/"; placed="$placed $wt/$dir/$(basename "$f")"
+    names=$(grep -h -o "^func Test[A-Za-z0-9_]*" "$f" | sed 's/func //' | paste -sd'|')
+    (cd "$wt/$dir" && flock /var/tmp/verif-repo-tests.lock timeout 600 go test -vet=off -count=1 -run "^($names)\$" . ) >> "$wt/.demo.log" 2>&1 || rc=1
+  done
+  rm -f $placed
   return $rc
 }
 rundemo; without=$?
